@@ -136,21 +136,24 @@ Definition has_grant (g : list grant) (granter grantee : addr) (k : mkind) : boo
 Definition dispatch_ok (g : list grant) (grantee : addr) (m : msg) : bool :=
   (signer m =? grantee) || has_grant g (signer m) grantee (kind_of m).
 
+(** authz DispatchActions over the inner messages, [f] being the message router *)
+Definition dispatch (f : st -> msg -> option st) (g : list grant) (grantee : addr) : st -> list msg -> option st :=
+  fix go (s : st) (l : list msg) {struct l} : option st :=
+    match l with
+    | [] => Some s
+    | m' :: r =>
+        if dispatch_ok g grantee m'
+        then match f s m' with Some s' => go s' r | None => None end
+        else None
+    end.
+
 (** one message, possibly a (nested) MsgExec; None = the handler returned an error *)
 Fixpoint exec_msg (g : list grant) (s : st) (m : msg) {struct m} : option st :=
   match m with
   | Exec grantee ms =>
       match ms with
       | [] => None (* MsgExec.ValidateBasic: messages cannot be empty *)
-      | _ =>
-        (fix go (s : st) (l : list msg) {struct l} : option st :=
-           match l with
-           | [] => Some s
-           | m' :: r =>
-               if dispatch_ok g grantee m'
-               then match exec_msg g s m' with Some s' => go s' r | None => None end
-               else None
-           end) s ms
+      | _ => dispatch (fun s' m' => exec_msg g s' m') g grantee s ms
       end
   | _ => handle_leaf s m
   end.
@@ -180,7 +183,7 @@ Fixpoint run_history (g : list grant) (s : st) (h : list (list msg)) : st * list
 (** leaves of a message tree in execution order *)
 Fixpoint leaves (m : msg) : list msg :=
   match m with
-  | Exec _ ms => (fix go (l : list msg) : list msg := match l with [] => [] | x :: r => leaves x ++ go r end) ms
+  | Exec _ ms => flat_map leaves ms
   | _ => [m]
   end.
 
